@@ -321,11 +321,11 @@ example :
 /-- … and this one (the child takes one byte) deadlocks: no step is possible, nothing is finished. -/
 example :
     (run seqCfg (init [.copy none 2 .out] [1, 2, 3, 4, 5] false)
-      [.wr 1, .cRead 1, .cWrite 1, .wr 1, .cRead 1, .wr 2]).all
+      [.wr 1, .cRead 1, .cWrite 1, .wr 1, .cRead 1, .wr 2, .wtStart]).all
       (fun s => (next seqCfg s).isNone && !s.completed && s.wleft == [5] && s.pin == [3, 4] && s.pend == [2] &&
         s.pout == [1]) = true ∧
     (run seqCfg (init [.copy none 2 .out] [1, 2, 3, 4, 5] false)
-      [.wr 1, .cRead 1, .cWrite 1, .wr 1, .cRead 1, .wr 2]).isSome = true := by
+      [.wr 1, .cRead 1, .cWrite 1, .wr 1, .cRead 1, .wr 2, .wtStart]).isSome = true := by
   decide
 
 /-- `seq_deadlock` is not vacuous: 6 bytes > 2 + 2 + 1 -/
